@@ -941,6 +941,16 @@ func reasmFamily(ctx *Ctx) error {
 		}
 	}
 
+	// systematic block: every record type at which the library's treatment of the type changes
+	for _, c := range reasmTypeCases() {
+		if res.NumViolations() >= 5 {
+			break
+		}
+		res.Hist("record-type boundary")
+		report(runReasmCase(ctx, m, c, idx), c)
+		idx++
+	}
+
 	if ctx.Prop == "C19" {
 		n := ctx.N(40, 400)
 		for i := 0; i < n && res.NumViolations() < 5; i++ {
